@@ -90,6 +90,13 @@ def eval_call(I: Interp, n: ast.Call, env: Env):
                 body = z3.Or([x == pack(I.ctx, e, ety) for e in base] + [x == at])
             env.set(n.func.value.id, SSet(z3.Lambda([x], body), ety))
             return None
+    if (isinstance(n.func, ast.Attribute) and n.func.attr == "discard" and isinstance(n.func.value, ast.Name) and len(n.args) == 1
+            and env.has(n.func.value.id) and isinstance(env.lookup(n.func.value.id), SSet)):
+        base = env.lookup(n.func.value.id)
+        arg = I.eval(n.args[0], env)
+        x = z3.Const(I.ctx.fresh_name("sx"), sort_of(base.ety))
+        env.set(n.func.value.id, SSet(z3.Lambda([x], z3.And(z3.Select(base.pred, x), x != pack(I.ctx, arg, base.ety))), base.ety))
+        return None
     f = I.eval(n.func, env)
     args = []
     for a in n.args:
